@@ -25,6 +25,7 @@ import cases as C          # noqa: E402
 from tielib import ENV, tie_component, run_proc   # noqa: E402
 import treegen as T        # noqa: E402
 import toolcheck as TC     # noqa: E402
+import img_tie as IMG      # noqa: E402
 
 LEVEL = "proof"
 
@@ -180,6 +181,13 @@ def run(ctx):
     h_xattr = B.compile_harness(asan, [os.path.join(HERE, "h_xattr.c")], "c01_h_xattr", extra=inc) \
         if os.path.exists(os.path.join(HERE, "h_xattr.c")) else None
     drv = core.build_model_driver("C01", "ExtractC01.v", os.path.join(HERE, "driver.ml"))
+    # composition stage (coq/Img): sqfs_serialize_fstree against Img.TreeModel.serialize_fstree, read-back oracle
+    h_img = B.compile_harness(asan, [os.path.join(HERE, "h_img.c")], "c01_h_img", extra=inc)
+    drv_img = core.build_model_driver("C01img", "ExtractImg.v", os.path.join(HERE, "img_driver.ml"))
+    ctx.trusted += ["props/C01/h_img.c (fstree built with fstree_add_generic + fstree_post_process, dumped as the model's input; "
+                    "in-memory sqfs_file_t; toy compressors), props/C01/img_driver.ml, img_cases.py, img_tie.py",
+                    "coq/Img/TreeModel.v: hand-written model of serialize_fstree.c and the reader specification (read_tree) "
+                    "that states the round trip"]
     ctx.trusted += ["props/C01/h_inode.c, h_xattr.c, h_common.h (in-memory file, text protocol), props/C01/driver.ml",
                     "props/C01/gen_c01.c: translator working tree -> coq/C01/GenC01.v (mode bits, xattr prefixes, id-table limit by probe)",
                     "vlib/sqfsimg.py (independent SquashFS reader) and props/C01/treegen.py, toolcheck.py (tree generator, expected tree, comparison)",
@@ -193,11 +201,12 @@ def run(ctx):
 
     rnd = random.Random(ctx.seed * 7919 + 1)
     tie_bad, prop_bad = [], []
-    with ThreadPoolExecutor(max_workers=4) as ex:
+    with ThreadPoolExecutor(max_workers=5) as ex:
         f_inode = ex.submit(check_inode_tie, ctx, h_inode, h_inode_plain, drv, random.Random(ctx.seed * 7919 + 2), quick)
         f_idt = ex.submit(check_idt, ctx, h_inode, drv)
         f_xattr = ex.submit(TC.check_xattr_tie, ctx, h_xattr, drv, random.Random(ctx.seed * 7919 + 3), quick, ENV) if h_xattr else None
         f_tool = ex.submit(TC.tool_oracle, ctx, asan, plain, random.Random(ctx.seed * 7919 + 4), quick, ENV)
+        f_img = ex.submit(IMG.stage, ctx, h_img, drv_img, random.Random(ctx.seed * 7919 + 5), quick)
         stats, tb, pb, types_seen = f_inode.result()
         tie_bad += tb
         prop_bad += pb
@@ -210,10 +219,12 @@ def run(ctx):
             tie_bad += tb
             prop_bad += pb
         tstats = f_tool.result()
+        istats = f_img.result()      # reports its own violations (tie:serialize-fstree, img-readback:*)
+    ctx.log("composition stage (serialize_fstree): %s" % istats)
 
-    evals = stats["enc"] + stats["dec"] + stats["mut"] + stats["ser"] + nidt + (xstats or {}).get("cases", 0) + tstats["images"]
+    evals = istats["cases"] + stats["enc"] + stats["dec"] + stats["mut"] + stats["ser"] + nidt + (xstats or {}).get("cases", 0) + tstats["images"]
     ctx.coverage["evaluations"] = evals
-    ctx.coverage["distinct_nontrivial"] = stats["enc_wf"] + stats["dec_ok"] + stats["ser_ok"] + (xstats or {}).get("nontrivial", 0) + tstats["images_ok"]
+    ctx.coverage["distinct_nontrivial"] = istats["impl_readback_ok"] + stats["enc_wf"] + stats["dec_ok"] + stats["ser_ok"] + (xstats or {}).get("nontrivial", 0) + tstats["images_ok"]
     ctx.coverage["traces_validated_against_impl"] = evals
     ctx.coverage["exhaustive"] = False
     ctx.coverage["rule"] = (
@@ -223,10 +234,14 @@ def run(ctx):
         "prefix / type rewrite / bit flip of encoder outputs + random strings; inode.c mutator sequences (length 1..8) over threshold "
         "values; serialize_tree_node over kinds x link counts {1,2,3,2^32-1} x xattr {none,0,7,2^32-2} x id-table states, directories "
         "with 0..300 entries, listing sizes 65527..65538 bytes, entry counts 254..257; id tables of 0,1,2047,2048,2049,65534,65537 ids; "
-        "xattr writer/reader: see xattr section; tool level: %d generated trees x configurations (seed %d). "
+        "xattr writer/reader: see xattr section; composition (sqfs_serialize_fstree vs Img.TreeModel, exact bytes + read-back of the "
+        "C output through the reader specification): generated fstrees with every inode type, directories of 0/1/254..258/300/511..513 "
+        "entries, listings ending at 8192 -20..+2 entries' worth around the metadata block border, 280..450 inodes (several inode "
+        "blocks), nesting 10..90, hard links incl. to later-numbered files and link chains, names 1..1000 and 65536/65537 bytes, "
+        "long targets / block lists, 300..1000 owner ids, toy compressors store / RLE / zero-RLE / contract-breaking; tool level: %d generated trees x configurations (seed %d). "
         "non-trivial = well-formed encoder case / decoder case accepted by the implementation / serialize case that succeeded / "
         "image that gensquashfs produced and that was compared completely" % (tstats["images"], ctx.seed))
-    ctx.coverage["distribution"] = dict(inode=stats, inode_types_wf=sorted(types_seen, key=int), idt=nidt, xattr=xstats, tool=tstats)
+    ctx.coverage["distribution"] = dict(img=istats, inode=stats, inode_types_wf=sorted(types_seen, key=int), idt=nidt, xattr=xstats, tool=tstats)
     for k in ("samples",):
         pass
     ctx.add_samples([dict(kind=k, input=i[:200], impl=(a or "")[:200], model=m[:200]) for k, i, a, m in []])
@@ -273,6 +288,15 @@ def replay(ctx, asan, plain, h_inode, h_xattr, drv):
                           dict(kind="tie-lines", lines=lines))
         ctx.coverage["evaluations"] = len(res)
         return
+    if kind == "img-lines":
+        h_img = B.compile_harness(asan, [os.path.join(HERE, "h_img.c")], "c01_h_img", extra=["-I" + HERE])
+        drv_img = core.build_model_driver("C01img", "ExtractImg.v", os.path.join(HERE, "img_driver.ml"))
+        res = IMG.run_cases(h_img, drv_img, [("replay", l) for l in r.get("lines", [])], IMG.RD_BUDGET["thorough"])
+        for x in res:
+            ctx.log("replay: impl=%s\n   model=%s\n   readback=%s" % ((x["impl"] or "")[:300], (x["model"] or "")[:300], x["rd"]))
+        IMG.evaluate(ctx, res)
+        ctx.coverage["evaluations"] = len(res)
+        return
     if kind in ("tool", "targeted"):
         TC.replay_tool(ctx, asan, plain, r, ENV)
         return
@@ -283,3 +307,4 @@ def setup():
     plain = B.build("plain")
     regen_gen(plain)
     core.build_model_driver("C01", "ExtractC01.v", os.path.join(HERE, "driver.ml"))
+    core.build_model_driver("C01img", "ExtractImg.v", os.path.join(HERE, "img_driver.ml"))
